@@ -22,6 +22,8 @@ CLAIMS = {
             "partial by nature: the theorem is about the account; the allocator's real behaviour (Vec growth, BTree nodes, error strings) is measured, not proved; a decode that takes the process down is attributed to the announced case"),
     "C07": ("Theorems C07_*: predicted size = produced length, encode/decode side agreement, 4 for variable types, fixed types encode to and accept only their fixed length. Tie + oracle on the crate's four static functions, ssz_bytes_len and decode of other lengths.",
             "as C01"),
+    "C08": ("Theorems over derive-input ASTs (Derive.v mirrors each macro branch): C08_rejected_at_compile_time (derive d = None <-> rejected d), container / transparent / enum schemas, selectors = declaration indices, and C08_behaves_as_reference (the generic C03 / C04 theorems at whatever schema derive yields). Tie: ~130 machine-written derive programs compiled with the real macro and observed by the generic harness (bytes, values, metadata, accept sets), their ASTs compared with the model's derive; 13 (quick) / 25 (thorough) tiny crates whose compile-time acceptance must match both the model and the property.",
+            "the AST abstraction of a derive input (attributes, field flags, variant arities) is hand-written and is what the generator emits; generics are exercised by instantiation only"),
     "C09": ("Theorems C09_word_* (exact little-endian bijection on [0,2^32)), C09_builder_tiles (builder succeeds iff the input is tiled; slices in registration order), C09_list_tiles, C09_offsets_spelled_out. Tie: builder histories, word codec, read_offset, list decoder; oracle: an independent native-integer tiling reference.",
             "as C01; thorough tier samples the 2^32 word domain rather than enumerating it"),
     "C10": ("Theorems C10_append_only (any type, value, buffer), C10_entry_points, C10_encoder_any_history, C10_encoder_is_container. Tie + oracle: ssz_append on six prefixes vs as_ssz_bytes / ssz_encode / &T / Arc<T>; manual SszEncoder histories vs the layout reference.",
@@ -65,7 +67,6 @@ for p in props:
             level_note="trusted: Coq 8.16.1 kernel (Print Assumptions: closed under the global context), extraction with ExtrOcamlBasic only, OCaml driver, Rust harness, type generator; " + note,
             technique=TECH))
 NA = {
-    "C08": "check under construction (Derive.v over derive-input ASTs and compile-fail crates): the generated derive programs are already exercised by C01-C07/C17, but the property is not yet claimed",
 }
 m = dict(
     version=1,
